@@ -36,11 +36,12 @@ import (
 )
 
 const (
-	swarmName   = "verif-swarm"
-	swarmIx     = 1
-	streamIdle  = 2 * time.Second        // a stream that delivers nothing and is not closed for this long is NeverClosed
-	streamShort = 300 * time.Millisecond // used after the same kind of call already hung twice in this process
-	callTimeout = 5 * time.Second
+	swarmName        = "verif-swarm"
+	swarmIx          = 1
+	streamIdle       = 2 * time.Second        // a stream that delivers nothing and is not closed for this long is NeverClosed
+	streamShort      = 300 * time.Millisecond // used after the same kind of call already hung twice in this process
+	callTimeout      = 5 * time.Second
+	scenarioDeadline = 90 * time.Second
 )
 
 var names = []string{"", "alpha", "beta", "gamma"}
@@ -240,6 +241,10 @@ func build(r *core.Rand, uu []uuid.UUID, ps planSpec, withChecks bool) *workflow
 
 type hangs struct{ n map[string]int }
 
+// processHangs is shared by all histories of a worker process: once a kind of call has hung twice in
+// this process, later calls of that kind get the short deadline (keeps a run on a broken tree short).
+var processHangs = &hangs{n: map[string]int{}}
+
 func (h *hangs) deadline(kind string) time.Duration {
 	if h.n[kind] >= 2 {
 		return streamShort
@@ -392,10 +397,10 @@ func searchItem(a *abs, vt *vaultUnderTest, u uuid.UUID) (present bool, row rowO
 // ---------------------------------------------------------------------------------- a history
 
 type stepRec struct {
-	Kind   string      `json:"kind"`
-	Input  any         `json:"input,omitempty"`
-	Obs    any         `json:"obs,omitempty"`
-	Note   string      `json:"note,omitempty"`
+	Kind   string `json:"kind"`
+	Input  any    `json:"input,omitempty"`
+	Obs    any    `json:"obs,omitempty"`
+	Note   string `json:"note,omitempty"`
 	term   string
 	filter *filterSpec
 	limit  *int
@@ -604,8 +609,20 @@ func (s *scenario) randomFilter(kind int, multi bool) filterSpec {
 			f.IDs = append(f.IDs, s.unknown[r.Intn(len(s.unknown))])
 		}
 	}
+	// aim: half of the time draw group / status values from what live plans actually carry
+	var liveGroups []int
+	var liveStatuses []int64
+	for ix := 1; ix <= s.nPlans; ix++ {
+		if ps, ok := s.live[ix]; ok {
+			liveGroups = append(liveGroups, ps.Group)
+			liveStatuses = append(liveStatuses, ps.Status)
+		}
+	}
 	if kind&2 != 0 {
 		pool := append([]int{0}, s.groups...)
+		if len(liveGroups) > 0 && r.Chance(0.5) {
+			pool = liveGroups
+		}
 		f.Groups = pick(r, pool, k())
 		if r.Chance(0.15) {
 			f.Groups = append(f.Groups, s.unknown[0]) // a group no plan has
@@ -613,7 +630,9 @@ func (s *scenario) randomFilter(kind int, multi bool) filterSpec {
 	}
 	if kind&4 != 0 {
 		pool := statusPool
-		if r.Chance(0.15) {
+		if len(liveStatuses) > 0 && r.Chance(0.5) {
+			pool = liveStatuses
+		} else if r.Chance(0.15) {
 			pool = append(append([]int64{}, pool...), 150)
 		}
 		n := k()
@@ -696,7 +715,7 @@ func runScenario(seed uint64, index int, tier string, scratch string) core.Case 
 	}
 	defer vt.cleanup()
 
-	s := &scenario{r: r, backend: backend, vt: vt, a: &abs{ids: map[uuid.UUID]int{}}, h: &hangs{n: map[string]int{}},
+	s := &scenario{r: r, backend: backend, vt: vt, a: &abs{ids: map[uuid.UUID]int{}}, h: processHangs,
 		live: map[int]planSpec{}, nPlans: nPlans, hist: map[string]int{}}
 	// uuid pool: 0 = Nil, 1..n plan ids, then 2 ids nobody creates, then 3 group ids
 	s.uu = []uuid.UUID{uuid.Nil}
@@ -844,7 +863,13 @@ func worker(from, to int, tier, out, scratch string) {
 	}
 	defer f.Close()
 	for i := from; i < to; i++ {
+		// nothing may hang the harness: a history that does not finish is a crash observation of the parent
+		wd := time.AfterFunc(scenarioDeadline, func() {
+			fmt.Fprintf(os.Stderr, "history %d did not finish within %s (hang in the code under test or its clean-up)\n", i, scenarioDeadline)
+			os.Exit(3)
+		})
 		c := runScenario(core.Seed(), i, tier, scratch)
+		wd.Stop()
 		b, err := json.Marshal(c)
 		if err != nil {
 			panic(err)
